@@ -14,6 +14,7 @@ package main
 
 import (
 	"fmt"
+	"math"
 	"strconv"
 	"strings"
 
@@ -39,7 +40,9 @@ func pxE(e ast.Expression) string {
 	case *ast.Integer:
 		return sx("int", strconv.FormatInt(t.Value, 10), hx(t.Token.Literal))
 	case *ast.Float:
-		return sx("float", hx(t.Token.Literal))
+		// the stored value as IEEE-754 bits: compared by the check with an independent exact conversion of
+		// the literal (the model does not carry the value; the check strips the bits before comparing with it)
+		return sx("float", hx(t.Token.Literal), fmt.Sprintf("x%016x", math.Float64bits(t.Value)))
 	case *ast.RTime:
 		return sx("rtime", hx(t.Value))
 	case *ast.String:
